@@ -270,7 +270,7 @@ const C13_CFGS: [(bool, usize, usize, bool); 5] =
 /// numbering symbolic.  `lookbehind`: for every resumption point p > 0 also
 /// every value of E0[p] (the pattern's answer if p were start-of-haystack).
 /// `ks`: additionally stop (Some(false)) / fail (Some(true)) at every sink call.
-fn c13_enum<S: Shape>(max_set: usize, lookbehind: bool, ks: Option<bool>) {
+fn c13_enum<S: Shape>(max_set: usize, lookbehind: bool, ks: Option<bool>, cfgs: &[usize]) {
     let n = S::HAY.len();
     let mut cfg = Cfg { a: 0, b: 0, invert: false, passthru: false, lnum: kani::any(), stop_nm: false };
     let mut searcher = build_searcher::<S>(&cfg, true);
@@ -300,9 +300,9 @@ fn c13_enum<S: Shape>(max_set: usize, lookbehind: bool, ks: Option<bool>) {
                 if !skip {
                     let matcher = SpanTableMatcher { n, e, e0, used_e0: std::cell::Cell::new(false) };
                     let (sel, straddle) = ref_selected::<S>(&matcher);
-                    let mut c = 0;
-                    while c < C13_CFGS.len() {
-                        let (inv, a, b, pt) = C13_CFGS[c];
+                    let mut ci = 0;
+                    while ci < cfgs.len() {
+                        let (inv, a, b, pt) = C13_CFGS[cfgs[ci]];
                         cfg.invert = inv;
                         cfg.a = a;
                         cfg.b = b;
@@ -342,7 +342,7 @@ fn c13_enum<S: Shape>(max_set: usize, lookbehind: bool, ks: Option<bool>) {
                                 k += 1;
                             }
                         }
-                        c += 1;
+                        ci += 1;
                     }
                 }
                 var += 1;
@@ -357,22 +357,25 @@ fn c13_enum<S: Shape>(max_set: usize, lookbehind: bool, ks: Option<bool>) {
 /// look-behind-free patterns: every span table (<= 3 bytes) / every table with
 /// at most 2 match starts (4..5 bytes)
 pub(crate) fn c13_multiline<S: Shape>() {
-    c13_enum::<S>(if S::HAY.len() <= 3 { MAXN } else { 2 }, false, None)
+    c13_enum::<S>(if S::HAY.len() <= 3 { MAXN } else { 2 }, false, None, &[0, 1, 2, 3, 4])
 }
 
 /// patterns WITH look-behind: additionally every alternative answer at a
 /// resumption point taken as start-of-haystack; the property demands the
 /// whole-input answer
 pub(crate) fn c13_multiline_lookbehind<S: Shape>() {
-    c13_enum::<S>(if S::HAY.len() <= 2 { MAXN } else { 1 }, true, None)
+    c13_enum::<S>(if S::HAY.len() <= 2 { MAXN } else { 1 }, true, None, &[0, 1, 2, 3, 4])
 }
 
 /// C16 for the multi-line strategy: stop at every sink call
 pub(crate) fn c16_multiline_refuse<S: Shape>() {
-    c13_enum::<S>(if S::HAY.len() <= 2 { MAXN } else { 2 }, false, Some(false))
+    // contexts (1,1), inverted with contexts, passthru; one match start per
+    // table on inputs of 3+ bytes (every table on shorter ones): the run count
+    // (tables x configurations x stop indices) is what bounds CBMC's memory
+    c13_enum::<S>(if S::HAY.len() <= 2 { MAXN } else { 1 }, false, Some(false), &[1, 2, 4])
 }
 
 /// C16 for the multi-line strategy: sink error at every sink call
 pub(crate) fn c16_multiline_error<S: Shape>() {
-    c13_enum::<S>(if S::HAY.len() <= 2 { MAXN } else { 1 }, false, Some(true))
+    c13_enum::<S>(if S::HAY.len() <= 2 { MAXN } else { 1 }, false, Some(true), &[1, 2, 4])
 }
